@@ -831,7 +831,7 @@ Proof.
   destruct (negb (start_stage_fresh (s_status st)) && negb zombie); [constructor|].
   destruct (should_skip st); [keeps_list tt|].
   destruct (mutex_blocked s i st); [keeps_list tt|].
-  destruct (choice_claimed s i st); [keeps_list tt|].
+  destruct (status_eqb (s_status st) NOT_STARTED && choice_claimed s i st); [keeps_list tt|].
   set (m := match s_mutex st with Some k0 => acquire_claim s true k0 i true | None => (true, w_claims s) end).
   destruct (fst m); cbn [negb]; [|keeps_list tt].
   set (c := match s_choice st with Some g => acquire_claim (with_claims (snd m) s) false g i false | None => (true, snd m) end).
